@@ -59,9 +59,31 @@ def _not(t):
 
 
 class _Matcher:
+    META = tuple(ord(c) for c in ".^$*+?{}[]\\|()")
+
     def __init__(self, pattern, flags=0):
-        if isinstance(pattern, SymStr):
-            pattern = pattern.concretize()
+        self.sym_lit = {}
+        if isinstance(pattern, SymStr) and not pattern.is_concrete():
+            # symbolic characters in the pattern: a character that may be a metacharacter is concretised (forking);
+            # every other symbolic character becomes a private-use placeholder that stands for itself (a literal)
+            out = []
+            r = None
+            for c in pattern.e:
+                if isinstance(c, str):
+                    out.append(c)
+                    continue
+                if isinstance(c, Atom):
+                    raise NotImplementedError("numeral atom inside a regular expression")
+                if decide(ch_in(c, self.META)):
+                    from . import engine
+                    out.append(chr(engine.cur().concretize(c, limit=len(self.META) + 1)))
+                else:
+                    ph = 0xE000 + len(self.sym_lit)
+                    self.sym_lit[ph] = c
+                    out.append(chr(ph))
+            pattern = "".join(out)
+        elif isinstance(pattern, SymStr):
+            pattern = pattern.concrete_str()
         self.pattern = pattern
         self.flags = flags
         self.tree = _parser.parse(pattern, flags)
@@ -78,10 +100,12 @@ class _Matcher:
         op, av = items[k]
         n = len(s)
         if op is _c.LITERAL:
-            if i < n and decide(ch_eq(s[i], chr(av))):
+            lit = self.sym_lit.get(av, None)
+            if i < n and decide(ch_eq(s[i], chr(av) if lit is None else lit)):
                 yield from self._m(items, k + 1, s, i + 1, groups)
         elif op is _c.NOT_LITERAL:
-            if i < n and not decide(ch_eq(s[i], chr(av))):
+            lit = self.sym_lit.get(av, None)
+            if i < n and not decide(ch_eq(s[i], chr(av) if lit is None else lit)):
                 yield from self._m(items, k + 1, s, i + 1, groups)
         elif op is _c.ANY:
             if i < n and (self.flags & int(_re.DOTALL) or not decide(ch_eq(s[i], "\n"))):
@@ -118,6 +142,26 @@ class _Matcher:
                     yield pos, g
             for j, g in rep(0, i, groups):
                 yield from self._m(items, k + 1, s, j, g)
+        elif getattr(_c, "POSSESSIVE_REPEAT", None) is not None and op is _c.POSSESSIVE_REPEAT:
+            lo, hi, sub = av
+            hi = n - i + 1 if hi is _c.MAXREPEAT else hi
+            sub = list(sub)
+            pos, g, count = i, groups, 0
+            while count < hi:
+                nxt = None
+                for j, g2 in self._m(sub, 0, s, pos, g):
+                    nxt = (j, g2)
+                    break
+                if nxt is None or nxt[0] == pos:
+                    break
+                pos, g = nxt
+                count += 1
+            if count >= lo:
+                yield from self._m(items, k + 1, s, pos, g)
+        elif getattr(_c, "ATOMIC_GROUP", None) is not None and op is _c.ATOMIC_GROUP:
+            for j, g in self._m(list(av), 0, s, i, groups):
+                yield from self._m(items, k + 1, s, j, g)
+                break
         elif op is _c.ASSERT or op is _c.ASSERT_NOT:
             direction, sub = av
             if direction < 0:
@@ -215,7 +259,7 @@ def _expand(repl, m):
 class SymPattern:
     def __init__(self, pattern, flags=0):
         self.pattern, self.flags = pattern, flags
-        self._real = _re.compile(pattern if isinstance(pattern, str) else pattern.concretize(), flags)
+        self._real = _re.compile(pattern, flags) if isinstance(pattern, str) else None
         self._m = None
 
     def _matcher(self):
@@ -224,7 +268,7 @@ class SymPattern:
         return self._m
 
     def _sym(self, string):
-        return isinstance(string, SymStr) and not string.is_concrete()
+        return self._real is None or (isinstance(string, SymStr) and not string.is_concrete())
 
     def _plain(self, string):
         return string.concrete_str() if isinstance(string, SymStr) else string
